@@ -125,7 +125,8 @@ Definition ozeqb (a b : option Z) : bool :=
 Definition dec_oz (j : J) : option (option Z) :=
   match j with JI z => Some (Some z) | JN => Some None | _ => None end.
 
-(* combiner ids: 0 Count 1 Sum 2 Min 3 Max 4 AverageF64 5 DistinctCount 6 DistinctSet 7 TopK(k) *)
+(* combiner ids: 0 Count 1 Sum 2 Min 3 Max 4 AverageF64 5 DistinctCount 6 DistinctSet 7 TopK(k)
+   8 KMVApproxDistinctCount::new(k) (expr cases only) *)
 Definition q_of (den : Z) (v : Z) : Q := Qmake v (Z.to_pos den).
 
 (* agree: model output on tree t vs observed outcome o *)
@@ -191,6 +192,15 @@ Definition prop_out (cid : Z) (k : nat) (den : Z) (vs : list Z) (o : J) : bool :
     match jints o with Some l => zlist_eqb l (ref_distinct vs) | None => false end
   else if cid =? 7 then
     match jints o with Some l => zlist_eqb l (ref_topk k vs) | None => false end
+  else if cid =? 8 then
+    (* mergeability observed on the implementation itself: same bits as the fold; and the exact
+       count when there are fewer than max(k,4) distinct values *)
+    match o with
+    | JL [JF t; JF f] =>
+        let d := Z.of_nat (length (ref_distinct vs)) in
+        (PrimFloat.eqb t f || (PrimFloat.is_nan t && PrimFloat.is_nan f))
+        && (if d <? Z.of_nat (Nat.max k 4) then PrimFloat.eqb t (float_of_Z d) else true)
+    | _ => false end
   else false.
 
 (* ------------------------------------------------------------------ run-length encoded rows
@@ -270,6 +280,11 @@ Definition map_aexpr {X Y} (f : X -> Y) : aexpr X -> aexpr Y :=
               | ABuild vs => ABuild (map f vs)
               end.
 
+Definition kmv_exact_count (k : nat) (e : aexpr Z) : option Z :=
+  let c := kmv_combiner (fun v : Z => v)
+             (fun m (_ : option Z) => if (m <? k)%nat then Some (Z.of_nat m) else None) k in
+  c_finish c (aeval c e).
+
 Definition agree_expr (cid : Z) (k : nat) (den : Z) (e : aexpr Z) (o : J) : bool :=
   if cid =? 0 then
     match o with JI z => z =? c_finish (count_combiner Z) (aeval (count_combiner Z) e)
@@ -301,6 +316,18 @@ Definition agree_expr (cid : Z) (k : nat) (den : Z) (e : aexpr Z) (o : J) : bool
     match jints o with
     | Some l => zlist_eqb l (c_finish (topk_combiner k) (aeval (topk_combiner k) e))
     | None => false end
+  else if cid =? 8 then
+    (* KMV: out = [finish of the expression, finish of the plain fold], both f64.  The hash-based
+       rank and the estimator are C15's; what the C06 model predicts is the exact branch: with
+       fewer than k (>= 4) distinct values the output is their number, whatever the ranks are
+       (the model is run with the identity as rank function). *)
+    match o with
+    | JL [JF t; JF _] =>
+        match kmv_exact_count (Nat.max k 4) e with
+        | Some d => PrimFloat.eqb t (float_of_Z d)
+        | None => true
+        end
+    | _ => false end
   else false.
 
 Definition is_pow2 (d : Z) : bool := existsb (Z.eqb d) [1; 2; 4; 8; 16].
@@ -326,7 +353,7 @@ Definition check_C06 (kind : string) (input output : J) : verdict :=
     (* in = [cid, k, den, expression]; out = the outcome of finish *)
     match input with
     | JL [JI cid; JI k; JI den; je] =>
-        if negb (is_pow2 den) || (k <? 0) || (cid <? 0) || (7 <? cid) then malformed else
+        if negb (is_pow2 den) || (k <? 0) || (cid <? 0) || (8 <? cid) then malformed else
         match dec_aexpr 1000 je with
         | Some e =>
             ok_verdict (agree_expr cid (Z.to_nat k) den e output)
